@@ -46,12 +46,13 @@ CHECKS.update({
                  "its five specification mutants must each violate an invariant, behaviours simulated by TLC from StreamSim.tla (three signals, growing schema levels, up to four faults over five batches) are concretised into streams for the real producer/consumer, and StreamTrace.tla validates every recorded Produce / Consume step of every stream (outcome and both stream maps, read through the verif-tagged projection) against it.", "7 C07",
                  technique="impl TLA+ spec Stream.tla model checked by TLC + white-box trace validation (StreamTrace.tla) of recorded producer/consumer steps; verdicts by the black-box monitor OtapObs.tla run by TLC on the same recordings"),
     "C08": _otap("exploration", "Unguarded seeded inputs (invalid UTF-8, huge timestamps, deep nesting), sparse first batches (columns introduced with only zeros), 65,535/65,536/65,537-parent batches for every id-bearing table as first and later batches, and dictionary regimes under every option; "
-                 "every encode outcome (ok / error / panic) is an event judged by OtapObs.tla.", "7 C08"),
+                 "every encode outcome (ok / error / panic) is an event judged by OtapObs.tla. Dictionary.tla is model checked for NoPanic / RetryBound and DictionaryInd.tla proves the termination of the schema-update retry loop for all capacities and histories (Apalache, inductive invariant).", "7 C08"),
     "C12": _otap("model_checking", "Every payload of every emitted batch is walked with arrow-go's MessageReader and each sub-stream re-decoded from scratch by an independent ipc.Reader; OtapObs.tla (Framing clauses) checks batch ids, main-first, one payload per type, non-empty related payloads, "
                  "schema-id stability / no reuse after retirement, IPC continuation shape and independent decodability, on interleaved signals, schema changes, dictionary resets, zstd on/off. "
                  "Stream.tla is model checked for IdDenotesOne, NoReuse, SchemaFirst, MainFirst, OncePerType, LiveBound (and its mutants), and StreamTrace.tla validates every recorded Produce step (payload ids, schema-first flags, batch id, the streamProducers map) against it.", "7 C12",
                  technique="impl TLA+ spec Stream.tla model checked by TLC + white-box trace validation (StreamTrace.tla); verdicts by the black-box monitor OtapObs.tla (Framing clauses) run by TLC on the wire walked by an independent Arrow reader"),
     "C13": _otap("model_checking", "Dictionary.tla (index level, memo size, cumulative totals, resetPending, shared-builder rebuild, RevertCounters; scaled capacities) is model checked exhaustively for DictBound / NoPanic / RetryBound / Widening; "
+                 "DictionaryInd.tla (the same machine over unbounded integers with symbolic capacities C1 < C2 < C3, two columns sharing one builder, the threshold test abstracted to a free choice) is proved by Apalache: an inductive invariant with an explicit ranking function gives DictBound and termination of the retry loop (retries <= 3) for all capacities, batch sizes and history lengths, the step is refuted for the pre-fix reset guard, and TLC checks that Dictionary.tla refines it; "
                  "DictObs.tla validates every dictionary column of every recorded stream against it (observer events with the cardinalities and totals the code itself reports, schema-update groups, and the dictionary an independent reader holds), with the true capacities. "
                  "Unbounded-cardinality columns are fed for many batches under every dictionary limit option and reset threshold (overflow, reset and slow-crossing regimes); the sizes of the dictionaries an independent Arrow reader holds after each payload "
                  "are compared by OtapObs.tla with the configured limit and with what the index type can address.", "7 C13"),
